@@ -226,9 +226,27 @@ def make_plan(seed: int, tier: str, index: int) -> dict[str, Any]:
                 continue
             lines = new
             ops.append(op)
-        cases.append({"kind": "damaged", "text": nl.join(lines), "fired": lines != base,
-                      "ops": [o["kind"] for o in ops],
-                      **({"reenter": True} if f.random() < 0.06 else {})})
+        case = {"kind": "damaged", "text": nl.join(lines), "fired": lines != base,
+                "ops": [o["kind"] for o in ops],
+                **({"reenter": True} if f.random() < 0.06 else {})}
+        if f.random() < 0.06:
+            # the stored BYTES are damaged (a flipped byte, a file torn inside a multi-byte
+            # character) and read through a decoding reader: the decoder's UnicodeDecodeError is a
+            # ValueError, hence documented
+            data = case["text"].encode("utf-8")
+            if data:
+                pos = f.randrange(len(data))
+                how = f.choice(["flip", "flip", "tear", "latin1"])
+                if how == "flip":
+                    data = data[:pos] + bytes([f.choice([0xFF, 0xC0, 0x80, 0xFE])]) + data[pos + 1:]
+                elif how == "tear":
+                    data = data[:pos] + "歌".encode("utf-8")[:2]
+                else:
+                    data = data[:pos] + "née".encode("latin-1") + data[pos:]
+                case["bytes_hex"] = data.hex()
+                case["ops"] = case["ops"] + ["byte_" + how]
+                case["fired"] = True
+        cases.append(case)
     nested_doc = gen.gen_doc(g, max_tracks=1, small=True)
     nested_doc["unknown"] = []
     return {"property": PROP, "seed": seed, "mode": "long-history" if long_run else "batch",
@@ -354,7 +372,15 @@ def execute(plan: dict[str, Any]) -> dict[str, Any]:
                     world.parse_text(nested)
         try:
             with world.reentrant_handler(reenter):
-                chart = world.parse_text(text, None, newline=None)
+                if case.get("bytes_hex"):
+                    import io
+
+                    from chartparse.chart import Chart
+
+                    chart = Chart.from_file(io.TextIOWrapper(io.BytesIO(bytes.fromhex(case["bytes_hex"])),
+                                                             encoding="utf-8", newline=None))
+                else:
+                    chart = world.parse_text(text, None, newline=None)
         except BaseException as e:  # noqa: BLE001
             name = type(e).__name__
             if world.is_documented_error(e):
